@@ -325,6 +325,33 @@ func init() {
 			in.invoke(nil, &callTarget{closure: cl, fn: cl.fn}, nil, nil, nil)
 			return nil
 		},
+		// sync.Map: a synchronised shared map (its use is not a data race; order dependence is a separate question
+		// answered by harnesses that run actions in both orders)
+		"(*sync.Map).Load": func(in *Interp, fn *ssa.Function, a []Value) Value {
+			m := in.syncMap(a[0])
+			i := in.mapFind(m, a[1])
+			if i < 0 {
+				return TupleV{&IfaceV{}, in.St.False}
+			}
+			return TupleV{m.entries[i].val, in.St.True}
+		},
+		"(*sync.Map).Store": func(in *Interp, fn *ssa.Function, a []Value) Value {
+			in.mapUpdate(in.syncMap(a[0]), a[1], a[2])
+			return nil
+		},
+		"(*sync.Map).LoadOrStore": func(in *Interp, fn *ssa.Function, a []Value) Value {
+			m := in.syncMap(a[0])
+			i := in.mapFind(m, a[1])
+			if i >= 0 {
+				return TupleV{m.entries[i].val, in.St.True}
+			}
+			in.mapUpdate(m, a[1], a[2])
+			return TupleV{a[2], in.St.False}
+		},
+		"(*sync.Map).Delete": func(in *Interp, fn *ssa.Function, a []Value) Value {
+			in.mapDelete(in.syncMap(a[0]), a[1])
+			return nil
+		},
 		"(*sync.Mutex).Lock":    func(in *Interp, fn *ssa.Function, a []Value) Value { in.inOnce++; return nil },
 		"(*sync.Mutex).Unlock":  func(in *Interp, fn *ssa.Function, a []Value) Value { in.inOnce--; return nil },
 		"(*sync.RWMutex).Lock":  func(in *Interp, fn *ssa.Function, a []Value) Value { in.inOnce++; return nil },
@@ -368,6 +395,39 @@ func init() {
 			h := &HostV{reflect.ValueOf(m)}
 			in.matcherDict()[m] = dict
 			return h
+		},
+		"(*github.com/cloudflare/ahocorasick.Matcher).Match": func(in *Interp, fn *ssa.Function, a []Value) Value {
+			// Matcher.Match mutates the matcher (it is documented as not safe for concurrent use): on a matcher created by a
+			// package initialiser this is a write to shared state
+			h := a[0].(*HostV)
+			m := h.rv.Interface().(*ahocorasick.Matcher)
+			if in.inOnce == 0 && !in.inInit {
+				w := "?"
+				if in.curFn != nil {
+					w = in.curFn.String()
+				}
+				in.globalWrites = append(in.globalWrites, "global-heap shared ahocorasick.Matcher mutated by Match (not safe for concurrent use) written by "+w)
+			}
+			var s *Str
+			switch x := a[1].(type) {
+			case *BytesV:
+				s = x.s
+			default:
+				in.fail("Matcher.Match on %T", a[1])
+			}
+			dict, ok := in.matcherDict()[m]
+			if !ok {
+				in.fail("aho-corasick matcher with unknown dictionary")
+			}
+			// hits in dictionary order of first occurrence is what Match returns; model: indices of contained words, ascending
+			var out []Value
+			for i, w := range dict {
+				c := in.strContains(s, concStr(w))
+				if in.branch(c, "Matcher.Match hit") {
+					out = append(out, in.St.Int(int64(i)))
+				}
+			}
+			return in.mkSlice(out)
 		},
 		"(*github.com/cloudflare/ahocorasick.Matcher).Contains": func(in *Interp, fn *ssa.Function, a []Value) Value {
 			h := a[0].(*HostV)
@@ -1170,4 +1230,22 @@ func (in *Interp) tryConcretize(t *sym.Term) *sym.Term {
 		return c
 	}
 	return t
+}
+
+func (in *Interp) syncMap(v Value) *MapV {
+	p, ok := v.(*Ptr)
+	if !ok || p.IsNil() {
+		in.fail("sync.Map method on %T", v)
+	}
+	k, _ := concKey(p)
+	if in.syncMaps == nil {
+		in.syncMaps = map[string]*MapV{}
+	}
+	m, ok := in.syncMaps[k]
+	if !ok {
+		in.mapSeq++
+		m = &MapV{id: in.mapSeq, conc: map[string]int{}}
+		in.syncMaps[k] = m
+	}
+	return m
 }
